@@ -108,6 +108,8 @@ func (v *Variants) Get(name string) *Env {
 				opts = append(opts, server.WithListObjectsBufferCapacity(n))
 			case 'p':
 				opts = append(opts, server.WithListObjectsNumProcs(n))
+			case 'o': // ListObjects max results only (ListUsers keeps its own default)
+				opts = append(opts, server.WithListObjectsMaxResults(uint32(n)))
 			case 'd': // ListObjects / ListUsers deadline in seconds (the default of 3 s truncates silently on a loaded machine)
 				opts = append(opts, server.WithListObjectsDeadline(time.Duration(n)*time.Second), server.WithListUsersDeadline(time.Duration(n)*time.Second))
 			case 'b':
@@ -385,11 +387,15 @@ func C06(run *Run) {
 	defer v.Close()
 	nCases := run.Pick(120, 2500)
 	rec := &Recorder{}
+	// nested union / intersection / exclusion over wildcard-assignable relations
+	runSetOps(ctx, v, rec, run, r, run.Pick(60, 600), "listusers")
+	luLimited := v.Get("server:o2") // ListObjects max results 2, ListUsers limit untouched
 	for c := 0; c < nCases; c++ {
 		cs, _ := GenCase(r, c, GenOpts{MinTuples: 8})
 		if err := v.Base.Setup(ctx, cs.Model, cs.Tuples); err != nil {
 			run.Inconclusive("setup failed: %v", err)
 		}
+		luLimited.StoreID, luLimited.ModelID = v.Base.StoreID, v.Base.ModelID
 		rec.Setup(cs.SetupEv())
 		ctxs := GenReqCtxs(r, cs.Model)
 		type filt struct{ t, rel string }
@@ -406,7 +412,12 @@ func C06(run *Run) {
 			rel := pick(r, cs.Model.RelsOf(t))
 			f := pick(r, filters)
 			ev := &ListUsersEv{Eng: "server", O: o, R: rel, FT: f.t, FRel: f.rel, Ctx: pick(r, ctxs)}
-			v.Base.RunListUsers(ctx, ev)
+			if i%4 == 3 { // a server whose ListObjects limit is 2: ListUsers must not be affected by it
+				ev.Eng = "server:o2"
+				luLimited.RunListUsers(ctx, ev)
+			} else {
+				v.Base.RunListUsers(ctx, ev)
+			}
 			rec.Add(ev)
 			run.Evals++
 			if cs.Model.Rel(t, rel).Rw.K != "this" || f.rel != "" {
